@@ -287,10 +287,12 @@ let monitor_mode cases_file obs_file =
            if not !unmodelled_any then begin
              let h = List.filter_map (fun (k, o) ->
                if k < Array.length reqs then Some (snd reqs.(k), o) else None) obs in
-             let vs = monitor_history (List.rev !case_script) h in
-             List.iteri (fun k v ->
-               print_endline (Printf.sprintf "M %s %d how=%s C01=%s C02=%s C18=%s" !case_id k
-                 (how_str v.vd_how) (verdict_str v.vd_C01) (verdict_str v.vd_C02) (verdict_str v.vd_C18))) vs
+             let vs = monitor_all (List.rev !case_script) h in
+             List.iteri (fun k (hw, l) ->
+               let buf = Buffer.create 128 in
+               Buffer.add_string buf (Printf.sprintf "M %s %d how=%s" !case_id k (how_str hw));
+               List.iter (fun (n, v) -> Buffer.add_string buf (Printf.sprintf " %s=%s" (string_of_bytes n) (verdict_str v))) l;
+               print_endline (Buffer.contents buf)) vs
            end
        | _ -> handle_line line
    done with End_of_file -> close_in ic)
